@@ -13,8 +13,9 @@ import (
 
 const c01AbsSchema = `
 interface Pet { name: String friend: Pet }
-type Dog implements Pet { name: String friend: Dog bark: Int }
-type Cat implements Pet { name: String friend: Cat meow: Int }
+interface Named { name: String }
+type Dog implements Named & Pet { name: String friend: Dog bark: Int }
+type Cat implements Pet & Named { name: String friend: Cat meow: Int }
 type Query { pets: [Pet] pet: Pet }
 `
 
@@ -85,7 +86,7 @@ func (q *c01AbsQuery) Resolve(field *ggql.Field, args map[string]interface{}) (i
 
 func petApplies(d *petData, cond string) bool {
 	switch cond {
-	case "", "Pet":
+	case "", "Pet", "Named":
 		return true
 	case "Dog":
 		return d.dog
@@ -145,7 +146,7 @@ func c01AbsShape(k int) (*shape, []*sel) {
 	var petSels []*sel
 	switch k {
 	case 0:
-		petSels = []*sel{sfld("__typename"), sfld("name"), sfld("friend", sfld("__typename"), sfld("name"), on("Dog", sfld("bark")), on("Cat", sfld("meow")))}
+		petSels = []*sel{sfld("__typename"), sfld("name"), on("Named", &sel{kind: selField, name: "name", alias: "nn"}), sfld("friend", sfld("__typename"), sfld("name"), on("Dog", sfld("bark")), on("Cat", sfld("meow")))}
 	case 1:
 		petSels = []*sel{{kind: selField, name: "name", alias: "n"}, on("Dog", sfld("friend", sfld("bark"))), on("Cat", sfld("friend", sfld("meow")))}
 	case 2:
